@@ -1,7 +1,7 @@
 from . import COMMON_TB, NOTE
 
 PROP = {
-    "modules": [],
+    "modules": ["Proofs.C19E2E"],
     "streams": [{"name": "delims"}],
     "rule": "delims: abstract token-level templates (items: text, object(args, hyphens), tag(name, args, hyphens), with the white "
             "space inside the delimiters recorded) are spelled twice - with custom delimiters d for an engine configured by "
@@ -25,7 +25,22 @@ PROP = {
 }
 
 TEXT = {
-    "text": ('Theorems: Delims("","","","") selects the defaults, position by position; a list that is not four entries selects '
+    "text": ('Main theorem, over ALL templates and ALL good delimiter sets (Proofs.C19E2E): a template is a list of abstract items '
+              '(text / object / tag with hyphens and inner white space, Proofs.E2ESpell), `spell d items` writes it with the '
+              'delimiters d and `tokensOf d items line` is the token list it denotes. For every delimiter quadruple satisfying '
+              'GoodDelims (non-empty strings of ASCII punctuation other than - and _, neither opening delimiter a prefix of the '
+              'other) and every item list satisfying the decidable predicate Clean d, the tokenizer - token pattern, '
+              'leftmost-first backtracking matcher with its lazy loops, hyphen detection, line counting - returns exactly '
+              '`tokensOf d items line` on `spell d items` (scan_spell; by induction over the matcher: objRe_m, tagRe_m, '
+              'lazyUnits, scanLoop_spell). Hence the token lists of two spellings are equal up to the source field of tag and '
+              'object tokens (tokens_equal_up_to_source), and, because the block parser and the compiler do not read that '
+              'field outside raw blocks (parseTokens_unsrc, compileList_unsrc), for templates without a tag named raw the '
+              'compiled templates are EQUAL (spellings_compile_equal), so `run` of an engine with custom delimiters on the '
+              'custom spelling is the run of the template compiled from the default spelling (run_custom_spelling_eq_default). '
+              'Raw blocks are excluded because the equivalence is false there (a raw body is emitted as spelled; counterexample '
+              'recorded). Clean also excludes three real quirks of the token pattern, each recorded as an evaluated example: '
+              '`{% else  %}` has arguments " ", `{% else -%}` has arguments "-" AND a right trim marker, `{% if x%%}` is text. '
+              'Further theorems: Delims("","","","") selects the defaults, position by position; a list that is not four entries selects '
               'the defaults; the delimiters used are never empty (delims_*); a trim marker is emitted exactly when the byte next '
               "to the configured delimiter is a hyphen, relative to that delimiter's length (hyphen_detection_obj/tag); the C05 "
               'partition and line theorems hold for every delimiter list (custom_delims_partition); a source containing none of '
@@ -34,8 +49,10 @@ TEXT = {
               "default delimiters, answers both by the model and the real engine, and compares the real engine's two results with "
               'each other.'),
     "design_ref": 'DESIGN.md 6 C19',
-    "note": NOTE + ('The equivalence of the two spellings is established per run (metamorphic oracle + correspondence), not as a single '
-              'theorem over all token lists.'),
-    "technique": ('Lean 4 proof (tokenizer lemmas generic in the delimiter list) + model/implementation correspondence + metamorphic '
+    "note": NOTE + ('The equivalence theorem excludes templates with a tag named raw (false when the raw body contains objects or '
+              'tags; true but not proved when it contains only text) and is stated for compilation and for `run` with the same '
+              'engine configuration on both sides (included files are read with the engine\'s own delimiters).'),
+    "technique": ('Lean 4 proof (induction over the backtracking matcher on the token pattern, for all good delimiter sets; tokenizer '
+              'lemmas generic in the delimiter list) + model/implementation correspondence + metamorphic '
               'oracle (custom vs default spelling)'),
 }
